@@ -46,6 +46,20 @@ func pattern(n int, newlines bool) []byte {
 	return b
 }
 
+// patternUTF8 is at most n bytes of text with characters of one to four bytes (kept in sync with hx.EmitPatternUTF8).
+func patternUTF8(n int) []byte {
+	unit := []rune("a\u00e9\u263a\u6f22\U0001F600\n")
+	var b []byte
+	for i := 0; ; i++ {
+		c := string(unit[i%len(unit)])
+		if len(b)+len(c) > n {
+			break
+		}
+		b = append(b, c...)
+	}
+	return b
+}
+
 // patternCR is the pattern with a CR LF pair or a lone CR every 61 bytes (kept in sync with hx.EmitPatternCR).
 func patternCR(n int) []byte {
 	b := pattern(n, false)
@@ -127,6 +141,10 @@ func main() {
 			writeAll(os.Stdout, pattern(num(), true))
 		case "E":
 			writeAll(os.Stderr, pattern(num(), true))
+		case "ou":
+			writeAll(os.Stdout, patternUTF8(num()))
+		case "eu":
+			writeAll(os.Stderr, patternUTF8(num()))
 		case "or":
 			writeAll(os.Stdout, patternCR(num()))
 		case "er":
